@@ -290,7 +290,22 @@ theorem C15_today_if_safe (hs : (configOf Generated.registries).safe = true) :
     C15_statement (configOf Generated.registries) :=
   C15_of_safe_config _ hs
 
-/-- for the current tree the excluded region is exactly the region of the open finding -/
+/-- since /repo 981c83d (the repair of the MRO finding) every switch the model reads off the table is off for the
+    CURRENT tree: identity-keyed registries and caches, complete memo keys, no in-place write to `_required`, serializer
+    written onto `cls`, the referenced class's OWN `__dict__` consulted -/
+theorem current_config_safe : (configOf Generated.registries).safe = true := by decide +kernel
+
+/-- C15 at FULL strength for the current tree: for every history, every dependency-closed class set and every class
+    in it, the class's view after the history is its view when defined alone (with its own serializer
+    configurations) — no excluded region -/
+theorem C15_today : C15_statement (configOf Generated.registries) :=
+  C15_today_if_safe current_config_safe
+
+/-- the excluded region of the general `frame` theorem is empty for the current tree -/
+theorem excluded_today_empty (h : List WorldOp) : Excluded (configOf Generated.registries) h :=
+  excluded_of_safe _ current_config_safe h
+
+/-- for a tree whose only finding switch is the MRO lookup the excluded region is exactly the region of that finding -/
 theorem excluded_today (h : List WorldOp)
     (hr : fastRefsRun (configOf Generated.registries) World.initial h = true) :
     Excluded (configOf Generated.registries) h := by
